@@ -33,6 +33,9 @@ type Server struct {
 	AutoPong bool
 	pongs    int
 	Emitted  []string
+	// Responder, when set, is called after every chunk of client bytes has been parsed (outside
+	// the server lock) and may deliver responses itself (request/response servers).
+	Responder func(s *Server)
 }
 
 func NewServer(c *Conn, serverRev int) *Server {
@@ -47,6 +50,9 @@ func (s *Server) onClientBytes(b []byte) {
 	s.mu.Unlock()
 	if !s.Manual {
 		s.pump()
+	}
+	if s.Responder != nil {
+		s.Responder(s)
 	}
 }
 
